@@ -180,10 +180,10 @@ class QCC(Ansatz):
             initial_var_params = np.concatenate((self.qmf_var_params, initial_var_params))
         else:
             initial_var_params = np.array(var_params)
-        self.var_params = initial_var_params
         if initial_var_params.size != self.n_var_params:
             raise ValueError(f"Expected {self.n_var_params} variational parameters but "
                              f"received {initial_var_params.size}.")
+        self.var_params = initial_var_params
         return initial_var_params
 
     def prepare_reference_state(self):
@@ -222,6 +222,7 @@ class QCC(Ansatz):
         # Obtain quantum circuit through trivial trotterization of the qubit operator
         # Track the order in which pauli words have been visited for fast parameter updates
         pauli_words_gates = []
+        self.pauli_to_angles_mapping = {}
         pauli_words = sorted(qubit_op.terms.items(), key=lambda x: len(x[0]))
         for i, (pauli_word, coef) in enumerate(pauli_words):
             pauli_words_gates += exp_pauliword_to_gates(pauli_word, coef)
